@@ -816,14 +816,24 @@ class Model:
         return rest
 
     # ------------------------------------------------------------ whole run
-    def run(self):
+    def run(self, lenient=False):
+        """lenient (stateless single-vote programs only): a line whose verdict is Unspecified or an expected
+        error is recorded as undecided (matched None) and the sweep continues with the next line"""
         trace = []
         self.frozen = False
         self.blank_last = False
         for i, line in enumerate(self.rows):
             if self.stopped:
                 break
-            res = self.run_line(i, line)
+            if lenient:
+                sc, mc, dc = self.scan_count, self.match_count, self.data_count
+                try:
+                    res = self.run_line(i, line)
+                except (Unspec, ExpErr) as e:
+                    self.scan_count, self.data_count = sc + 1, dc + 1
+                    res = {"considered": True, "matched": None, "undecided": type(e).__name__ + ":" + str(e)[:40]}
+            else:
+                res = self.run_line(i, line)
             res.update({"pln": i, "vars": copy.deepcopy(self.vars), "valid": self.valid, "scan": self.scan_count, "match": self.match_count, "ran": list(getattr(self, "ran", [])), "errs": self.line_errors, "fired": ("stop" if self.stop_fired else ("skip" if self.skip_fired else None))})
             self.ran = []
             trace.append(res)
